@@ -25,14 +25,18 @@ def txt(v):
     l = unlink(v)
     return l[2].strip('"') if l else (v[1] if v else "")
 
-WHICH = {"C13": ["full"], "C19": ["full"], "C14": ["us", "ie"], "C15": ["open"], "C20": ["jp"], "C07": ["full"], "C16": ["full", "us", "ie", "open", "jp"]}
+WHICH = {"C05": ["full", "us", "us", "ie"], "C13": ["full"], "C19": ["full"], "C14": ["us", "ie"], "C15": ["open"], "C20": ["jp"], "C07": ["full"], "C16": ["full", "us", "ie", "open", "jp"]}
 def gen(rng, prop=None):
     assets = ["B1", "B2", "B3"][:rng.randint(1, 3)]; per = {}; days = []
     for a in assets:
-        c = P.gen(rng, "reports"); rows = [r for r in c["rows"] if not (r[0] == "OUT" and r[9] is not None and r[9] != r[7] + r[8])]
+        c = P.gen(rng, "reports"); rows = c["rows"]
         per[a] = rows; days += [ldate(r[2], r[3]) for r in rows]
     days = sorted(set(days)); cand = days + [d + timedelta(days=1) for d in days] + [d - timedelta(days=1) for d in days]
     fd = rng.choice(cand) if rng.random() < 0.4 else None; td = rng.choice(cand) if rng.random() < 0.4 else None
+    bd = [d for rows in per.values() for d in P.boundary_dates(rows)]
+    if bd and rng.random() < 0.5:
+        if rng.random() < 0.7: td = rng.choice(bd)
+        else: fd = rng.choice(bd)
     if fd and td and fd > td: fd, td = td, fd
     which = rng.choice(WHICH.get(prop, ["full", "full", "us", "ie", "open", "jp"]))
     if which in ("open", "jp"): fd = None
@@ -105,6 +109,13 @@ def extract_open(path, assets):
         if r and r[0] and r[0][0] == "str" and r[0][1] in assets: L.append(["OA", 4 + i, r[0][1], r[1][1], r[2][1], r[3][1], r[4][1], r[5][1]])
     for i, r in enumerate(d["Asset - Exchange"][3:]):
         if r and r[0] and r[0][0] == "str" and r[0][1] in assets: L.append(["OE", 4 + i, r[0][1], r[1][1], ACCTS.index((r[2][1], r[1][1])), r[3][1], r[4][1], r[5][1], r[6][1]])
+    # per-holder "Total" rows (order = the report's holder order; their SUMIF formula must name the holder of the row)
+    for tag, sh in (("A", "Asset"), ("E", "Asset - Exchange")):
+        for i, r in enumerate(d[sh][3:]):
+            if r and r[0] and r[0][0] == "str" and r[0][1] == "Total" and len(r) > 1 and r[1]:
+                f = next((c[1] for c in r[2:] if c and c[0] == "formula" and "SUMIF" in c[1]), "")
+                m = re.search(r'SUMIF\([^;]*;"([^"]*)"', f)
+                L.append(["OT", tag, 4 + i, r[1][1] if (m and m.group(1) == r[1][1]) else f"{r[1][1]}!={m.group(1) if m else None}"])
     return L
 def extract_jp(path):
     L = []
@@ -171,6 +182,7 @@ def parse_model(case, block):
         elif t[0] == "SHEETS": sheets = sorted(x.replace("_", " ") for x in t[1].split(",") if x) if len(t) > 1 else []
         elif t[0] == "OA": L.append(["OA", int(t[1]), t[2], t[3], fl(t[4]), fl(t[5]), fl(t[6]), fl(t[7])])
         elif t[0] == "OE": L.append(["OE", int(t[1]), t[2], t[3], int(t[4]), fl(t[5]), fl(t[6]), fl(t[7]), fl(t[8])])
+        elif t[0] == "OT": L.append(["OT", t[1], int(t[2]), t[3]])
         elif t[0] == "JS": L.append(["JS", t[1], t[2], int(t[3])])
         elif t[0] == "JR": L.append(["JR", t[1], int(t[2]), int(t[3]), int(t[4]), t[5], q(t[6]), q(t[7]), q(t[8]), q(t[9]), fl(t[10])])
     r = {"status": "ok", "rows": L}
@@ -181,7 +193,7 @@ def run_model(cases):
     return [parse_model(c, b) for c, b in zip(cases, out)]
 def pub(r): return {k: v for k, v in r.items() if not k.startswith("_")}
 KIND = {"IOIN": "inout", "IOOUT": "inout", "IOX": "inout", "TY": "taxsheet", "TB": "taxsheet", "TT": "taxsheet", "TP": "taxsheet", "TD": "detail", "SU": "summary",
-        "TR": "taxreport", "OA": "open", "OE": "open", "JS": "jp", "JR": "jp"}
+        "TR": "taxreport", "OA": "open", "OE": "open", "OT": "open", "JS": "jp", "JR": "jp"}
 def strip_links(r):
     if r[0] == "TD": return r[:9] + r[11:]
     if r[0] == "SU": return r[:6]
@@ -207,6 +219,7 @@ def diff(case, i, m):
 def oracle_c19(case, res, guard=True):
     if res["status"] != "ok" or case["which"] != "full": return None
     full = res["_full"]; shown = {}
+    fdw = date.fromisoformat(case["from"]) if case["from"] else date.min; tdw = date.fromisoformat(case["to"]) if case["to"] else date.max
     for r in res["rows"]:
         if r[0] in ("IOIN", "IOOUT", "IOX"):
             if r[-1] is not True: return f"{r[1]} In-Out row {r[2]} does not hold the expected transaction"
@@ -217,6 +230,13 @@ def oracle_c19(case, res, guard=True):
                 if tx is None: continue
                 exp = [f"{r[1]} In-Out", shown[(r[1], tx)]] if (r[1], tx) in shown else None
                 if link != exp: return f"{r[1]} Tax row {r[2]}: {what} {tx} links to {link}, expected {exp}"
+                # independently of which rows rp2 chose to show: a link exactly when the transaction's own date lies in the window
+                if (not guard) or dates_ok(case):
+                    src = [x for x in case["assets"][r[1]] if x[1] == tx]
+                    if src:
+                        inside = fdw <= ldate(src[0][2], src[0][3]) <= tdw
+                        if inside and link is None: return f"{r[1]} Tax row {r[2]}: {what} {tx} lies inside the window [{case['from']}, {case['to']}] but carries no link"
+                        if (not inside) and link is not None: return f"{r[1]} Tax row {r[2]}: {what} {tx} is hidden by the date filter [{case['from']}, {case['to']}] but links to {link}"
         if r[0] == "SU" and r[6] is not None:
             if guard and not P.local_dates_monotone({"rows": case["assets"][r[2]]}): continue      # finding F15 (hypothesis LocalDatesMonotone)
             sheet, row = r[6]
@@ -230,10 +250,16 @@ def oracle_c13(case, res, guard=True):
     if res["status"].startswith(("gen-error", "crash")) and case["which"] in WHICH["C13"]: return f"the full report could not be generated ({res['status']}): nothing is listed"
     if res["status"] != "ok" or case["which"] != "full": return None
     a2c = res["_a2c"]
+    fdw = date.fromisoformat(case["from"]) if case["from"] else date.min; tdw = date.fromisoformat(case["to"]) if case["to"] else date.max
     for a, cd in a2c.items():
         for kind, s in (("IOIN", cd.in_transaction_set), ("IOOUT", cd.out_transaction_set), ("IOX", cd.intra_transaction_set)):
             got = [r[3] for r in res["rows"] if r[0] == kind and r[1] == a]; exp = [int(t.internal_id) for t in s]
             if got != exp: return f"{a}: {kind} rows {got} vs transactions of the window {exp}"
+            # independently of rp2's own filtered sets: exactly the transactions whose own date lies in the window, in time order
+            if (not guard) or dates_ok(case):
+                tbl = {"IOIN": "IN", "IOOUT": "OUT", "IOX": "INTRA"}[kind]
+                want = [r[1] for r in sorted([r for r in case["assets"][a] if r[0] == tbl and fdw <= ldate(r[2], r[3]) <= tdw], key=lambda r: (r[2], r[1]))]
+                if sorted(got) != sorted(want): return f"{a}: {kind} rows show transactions {sorted(got)}, the window [{case['from']}, {case['to']}] contains {sorted(want)}"
         close = lambda x, y: abs(x - y) <= 1e-9 * max(1.0, abs(x), abs(y))
         rows_a = case["assets"][a]; order = lambda t: sorted([r for r in rows_a if r[0] == t], key=lambda r: (r[2], r[1]))
         run = 0; pre = {}
@@ -285,6 +311,34 @@ def oracle_c14(case, res, guard=True):
     if len({(r[1], r[2]) for r in res["rows"]}) != len(res["rows"]): return "a (sheet, row) is used twice"
     if sorted(set(r[1] for r in res["rows"])) != res["sheets"]: return f"sheets present {res['sheets']} vs sheets with rows"
     return None
+def oracle_c05(case, res, guard=True):
+    """LONG/SHORT cells of the reports: long exactly when the whole days between the two instants reach the country's period (365 for the
+    full and US reports, never for IE); income fractions are short; each fraction on its own"""
+    if res["status"] != "ok" or case["which"] not in ("full", "us", "ie"): return None
+    period = None if case["which"] == "ie" else 365
+    DAY = 86400 * 10**6
+    if case["which"] == "full":
+        for r in res["rows"]:
+            if r[0] != "TD" or r[3] is None: continue
+            rows = case["assets"][r[1]]; ev = [x for x in rows if x[1] == r[3]]; lot = [x for x in rows if x[1] == r[4]] if r[4] is not None else []
+            if not ev: continue
+            exp = bool(lot) and period is not None and (ev[0][2] - lot[0][2]) // DAY >= period
+            if r[8] != exp: return f"{r[1]} Tax row {r[2]}: fraction of event {r[3]} from lot {r[4]} is marked {'LONG' if r[8] else 'SHORT'}, the instants are {((ev[0][2] - lot[0][2]) // DAY) if lot else None} whole days apart"
+        return None
+    exp = []
+    for a, cd in res["_a2c"].items():
+        for g in cd.gain_loss_set:
+            d = lambda t: [t.timestamp.year, t.timestamp.month, t.timestamp.day]
+            lg = bool(g.acquired_lot) and period is not None and (g.taxable_event.timestamp - g.acquired_lot.timestamp).days >= period
+            exp.append((a, float(g.crypto_amount), d(g.taxable_event), d(g.acquired_lot) if g.acquired_lot else None, lg))
+    got = [(r[3], r[4], r[9], r[10], r[8]) for r in res["rows"]]
+    key = lambda t: json.dumps(t, default=str)
+    got.sort(key=key); exp.sort(key=key)
+    if got != exp:
+        bad = [g for g in got if g not in exp][:1] + [e for e in exp if e not in got][:1]
+        return f"LONG/SHORT cells of the tax report differ from the holding periods (asset, amount, sold, acquired, long): {bad}"
+    return None
+def fee_visible(case): return all(P.fee_fiat_visible({"rows": rows}) for rows in case["assets"].values())
 def dates_ok(case):
     """LocalDatesMonotone (finding F6) matters only where a date cut is applied"""
     return not (case["to"] or case["from"]) or all(P.local_dates_monotone({"rows": rows}) for rows in case["assets"].values())
@@ -319,32 +373,45 @@ def oracle_c07(case, res, guard=True):
         for r in tt:
             if not close(r[4], tot[r[3]]): return f"{a}: total of holder {r[3]} is {r[4]}, its accounts add up to {tot[r[3]]}"
     return None
-def fee_visible(case): return all(P.fee_fiat_visible({"rows": rows}) for rows in case["assets"].values())
 def oracle_c20(case, res, guard=True):
     if guard and not fee_visible(case): return None      # finding F13 (hypothesis FeeFiatVisible)
     if res["status"].startswith(("gen-error", "crash")) and case["which"] in WHICH["C20"]: return f"the Japanese tax report could not be generated ({res['status']}): nothing is listed"
     if res["status"] != "ok" or case["which"] != "jp": return None
+    if guard and not dates_ok(case): return None         # finding F6: a to-date with mixed UTC offsets
     js = {r[1]: r for r in res["rows"] if r[0] == "JS"}; exp = set()
-    for a, cd in res["_a2c"].items():
-        yrs = sorted({t.timestamp.year for s_ in (cd.in_transaction_set, cd.out_transaction_set, cd.intra_transaction_set) for t in s_}); prev = None
+    tdw = date.fromisoformat(case["to"]) if case["to"] else date.max
+    close = lambda x, y: (x is None and y is None) or (x is not None and y is not None and abs(x - y) <= 1e-9 * max(1.0, abs(x), abs(y)))
+    for a, rows in case["assets"].items():
+        rows = [r for r in rows if ldate(r[2], r[3]) <= tdw]
+        yrs = sorted({ldate(r[2], r[3]).year for r in rows}); prev = None
         for y in yrs:
             nm = f"{a}_{y}"; exp.add(nm)
-            if nm not in js: return f"sheet {nm} missing"
+            if nm not in js: return f"sheet {nm} missing although {a} has transactions dated {y}"
             if prev is None and js[nm][2] != "-": return f"{nm}: first year refers to {js[nm][2]}"
             if prev is not None:
                 want = f"{a}_{prev}:{js[f'{a}_{prev}'][3]}"
                 if js[nm][2] != want: return f"{nm}: opening balance refers to {js[nm][2]}, closing cells of the previous year sheet are {want}"
-            cnt = sum(1 for s_ in (cd.in_transaction_set, cd.out_transaction_set) for t in s_ if t.timestamp.year == y) + sum(1 for t in cd.intra_transaction_set if t.timestamp.year == y and F(t.crypto_fee) > 0)
-            listed = sum(1 for r in res["rows"] if r[0] == "JR" and r[1] == nm)
-            if listed != cnt: return f"{nm}: {listed} rows for {cnt} transactions"
+            # one row per in/out transaction and fee-bearing transfer of that year, with month, day, purchased and sold amount
+            want_rows = []
+            for r in sorted([r for r in rows if ldate(r[2], r[3]).year == y], key=lambda r: (r[2], {"IN": 0, "OUT": 1, "INTRA": 2}[r[0]], r[1])):
+                d = ldate(r[2], r[3])
+                if r[0] == "IN": want_rows.append((d.month, d.day, r[7] / U, 0.0 if r[4] in EARN else None))
+                elif r[0] == "OUT": want_rows.append((d.month, d.day, None, (r[9] if r[9] is not None else r[7] + r[8]) / U))
+                elif r[7] > r[8]: want_rows.append((d.month, d.day, None, (r[7] - r[8]) / U))
+            got_rows = [(r[3], r[4], r[6], r[8]) for r in res["rows"] if r[0] == "JR" and r[1] == nm]
+            if len(got_rows) != len(want_rows): return f"{nm}: {len(got_rows)} rows for {len(want_rows)} transactions"
+            key = lambda t: (t[0], t[1], t[2] if t[2] is not None else -1.0, t[3] if t[3] is not None else -1.0)
+            for g, w in zip(sorted(got_rows, key=key), sorted(want_rows, key=key)):
+                if g[0] != w[0] or g[1] != w[1] or not close(g[2], w[2]) or not close(g[3], w[3]):
+                    return f"{nm}: row (month, day, purchased, sold) = {g} but the transaction is {w}"
             prev = y
-    if set(js) != exp: return f"sheets {sorted(js)} vs asset-years {sorted(exp)}"
+    if set(js) != exp: return f"sheets {sorted(js)} vs asset-years with transactions {sorted(exp)}"
     return None
 def oracle_c16(case, res, guard=True):
     if guard and case["which"] == "jp" and not fee_visible(case): return None      # finding F13
     if res["status"].startswith(("gen-error", "crash")): return f"report generator {case['which']} ends with an internal error ({res['status']}) on a valid input"
     return None
-ORACLES = {"C16": oracle_c16, "C07": oracle_c07, "C13": oracle_c13, "C14": oracle_c14, "C15": oracle_c15, "C19": oracle_c19, "C20": oracle_c20}
+ORACLES = {"C05": oracle_c05, "C16": oracle_c16, "C07": oracle_c07, "C13": oracle_c13, "C14": oracle_c14, "C15": oracle_c15, "C19": oracle_c19, "C20": oracle_c20}
 
 def shrink_candidates(case):
     for a in list(case["assets"]):
@@ -360,7 +427,7 @@ def shrink_candidates(case):
 def nontrivial(case, i): return i["status"] == "ok" and len(i.get("rows", [])) >= 3
 def hypotheses_failed(case, prop):
     h = ["FeeFiatVisible"] if prop in ("C20", "C16") and case["which"] == "jp" and not fee_visible(case) else []
-    if prop == "C15" and not dates_ok(case): h.append("LocalDatesMonotone")
+    if prop in ("C15", "C20", "C13") and not dates_ok(case): h.append("LocalDatesMonotone")
     if prop == "C19" and any(not P.local_dates_monotone({"rows": rows}) for rows in case["assets"].values()): h.append("LocalDatesMonotone")
     return h
 def note_stats(case, i, st):
